@@ -37,7 +37,7 @@ fn class(from: f64, to: f64) -> &'static str {
 
 /// Histories: how the constraints under test came to hold the range. 0 = Constraints::new; 1 = from_degrees (whole-degree
 /// lattice only); 2.. = an earlier range on every joint, replaced by update_range.
-pub const HISTORIES: usize = 7;
+pub const HISTORIES: usize = 8;
 fn prior_range(history: usize) -> Option<(f64, f64)> {
     match history {
         2 => Some((-0.1, 0.1)),  // narrow ordinary
@@ -56,6 +56,12 @@ pub fn eval(joint: usize, from: f64, to: f64, k: u64, history: usize) -> Result<
     f[joint] = from;
     t[joint] = to;
     let c = match (history, prior_range(history)) {
+        (7, _) => {
+            // an earlier range 0.5 rad wider on either side (same mid-points), narrowed by update_range
+            let mut c = Constraints::new(f.map(|x| x - 0.5), t.map(|x| x + 0.5), 0.0);
+            c.update_range(f, t);
+            c
+        }
         (_, Some((pf, pt))) => {
             let mut c = Constraints::new([pf; 6], [pt; 6], 0.0);
             c.update_range(f, t);
@@ -67,6 +73,14 @@ pub fn eval(joint: usize, from: f64, to: f64, k: u64, history: usize) -> Result<
     let (from, to) = (c.from[joint], c.to[joint]);
     let half = raw_for_unit(1u64 << 51);
     let raw = raw_for_unit(k);
+    // a sibling set (same lower limits, upper limits 0.9 rad further on) is sampled on the same thread just before a quarter
+    // of the draws: nothing one constraints object computes may be reused by another
+    if (k ^ (from.to_bits() >> 7) ^ (to.to_bits() >> 11)) % 4 == 0 {
+        let sibling = Constraints::new(c.from, c.to.map(|x| x + 0.9), 0.0);
+        verif_hooks::arm_local_script(Box::new(move |_| half));
+        let _ = catch_unwind(AssertUnwindSafe(|| sibling.random_angles()));
+        let _ = verif_hooks::disarm_local_script();
+    }
     verif_hooks::arm_local_script(Box::new(move |i| if i == joint { raw } else { half }));
     let res = catch_unwind(AssertUnwindSafe(|| c.random_angles()));
     let consumed = verif_hooks::disarm_local_script();
@@ -204,7 +218,7 @@ pub fn run(ctx: &Ctx) -> Report {
     rep.traces_validated = rep.transitions;
     rep.rule = format!(
         "(from,to) on the {step_deg}-degree lattice of [-360,360]^2 (one joint at a time) x scripted unit draws {{0, 2^-52, i/64, 1-2^-52, \
-         segment switch point +-{{2^-52, 2^-30}}}} x histories {{new, from_degrees, update_range over a narrow / narrow wrapping / unconstrained / wide / nearly-full earlier range}} fed to the real sampler through the ScriptedRng hook; the sampler is piecewise linear in the \
+         segment switch point +-{{2^-52, 2^-30}}}} x histories {{new, from_degrees, update_range over a narrow / narrow wrapping / unconstrained / wide / nearly-full / symmetric wider earlier range}}, a sibling set with the same lower limits sampled just before a quarter of the draws fed to the real sampler through the ScriptedRng hook; the sampler is piecewise linear in the \
          draw with one breakpoint, so both ends and both sides of the breakpoint decide each piece; oracle = arc membership (and the library's \
          own compliant()); results within 1e-9 of an arc end are skipped_boundary; plus ranges of every ladder width (almost empty, almost a full turn both ways) and signed zeros; signature = (range class, accepted)"
     );
